@@ -315,3 +315,96 @@ Definition pre_gcp_opt (s : vec) (rank : Z) (init : initk) (opt_ok : bool) : boo
 (* import_data: header says n modes, the shape line has k entries; data type word known *)
 Definition pre_import (type_ok : bool) (n k : Z) : bool := type_ok && (n =? k).
 Definition guard_import (type_ok : bool) (n k : Z) : res unit := chk type_ok ;; chk (k =? n).
+
+(* ======================================================================================== *)
+(* wave 2: guard models of the repaired and of further operations                             *)
+(* ======================================================================================== *)
+(* K.redistribute(mode): "mode not in range(ndims)" (C19-N07 repaired) *)
+Definition guard_mode (s : vec) (n : Z) : res unit := chk (in_range (ndim s) n).
+
+(* get_mttkrp_factors(U, n, ndims): list length, then "0 <= n < ndims" (C19-N08 / C19-N10 repaired) *)
+Definition guard_mttkrp_factors (N : Z) (us : list shp2) (n : Z) : res unit := chk (zlen us =? N) ;; chk (in_range N n).
+Definition mttkrp_R (us : list shp2) (n : Z) : Z := cols (shp2_d us (if n =? 0 then 1 else 0)).
+(* tensor.mttkrp: order >= 2, the helper, the per-matrix row loop, then the column agreement that khatrirao and the
+   reshape to (szl, szn, R) / the matrix products enforce on every matrix except U[n] (which is never looked at) *)
+Definition guard_tensor_mttkrp (s : vec) (us : list shp2) (n : Z) : res unit :=
+  let N := ndim s in
+  chk (2 <=? N) ;; guard_mttkrp_factors N us n ;;
+  chk_all (fun iu => chk ((fst iu =? n) || (rows (snd iu) =? sz s (fst iu)))) (combine (np_arange 0 N) us) ;;
+  chk (forallb (fun iu => (fst iu =? n) || (cols (snd iu) =? mttkrp_R us n)) (combine (np_arange 0 N) us)).
+
+(* tensor.collapse(dims): an empty data array is answered before the modes are looked at; otherwise the generated helper decides *)
+Definition guard_tensor_collapse (s d : vec) : res unit :=
+  if zprod s =? 0 then Ok tt
+  else match tt_dimscheck (ndim s) None (Some d) None with Err => Err | Ok _ => Ok tt end.
+
+(* sptensor(subs, vals, shape) with subs a rectangular array: nothing is compared when subs.size == 0; otherwise the value
+   count (C19-N05 repaired), the column count and the upper bounds "max(subs)+1 <= shape" (no lower bound) *)
+Definition guard_sptensor_ctor (s : vec) (subs : list vec) (nvals : Z) : res unit :=
+  let ncols := zlen (hd [] subs) in
+  if (zlen subs =? 0) || (ncols =? 0) then Ok tt
+  else chk (nvals =? zlen subs) ;; chk (ncols =? ndim s) ;;
+       chk (forallb (fun row => forallb (fun p => fst p <? snd p) (combine row s)) subs).
+
+(* algorithm option checks in the order the code performs them *)
+Definition guard_dimorder (s : vec) (dimorder : option vec) : res unit :=
+  match dimorder with None => Ok tt | Some o => guard_sorted_perm s o end.
+Definition guard_cp_als (s : vec) (rank : Z) (init : initk) (dimorder : option vec) : res unit :=
+  guard_dimorder s dimorder ;; chk (0 <? rank) ;;
+  match init with
+  | InitK ks R => chk (zlen ks =? ndim s) ;; chk (R =? rank) ;;
+                  chk_all (fun n => chk (sz ks n =? sz s n))           (* factor n has shape (shape[n], rank) *)
+                          (match dimorder with None => np_arange 0 (ndim s) | Some o => o end)
+  | InitRandom | InitNvecs => Ok tt
+  | InitBogus | InitList _ => Err
+  end.
+Definition guard_hosvd (s : vec) (ranks : option vec) (dimorder : option vec) : res unit :=
+  match ranks with None => Ok tt | Some r => chk (zlen r =? ndim s) end ;; guard_dimorder s dimorder.
+
+(* the ttv family shares one check structure: tt_dimscheck, the per-vector size loop, then class-specific arithmetic
+   (`tail`, a function of the sorted modes) *)
+Definition guard_ttv_with (tail : vec -> res unit) (s vlens : vec) (dims excl : option vec) : res unit :=
+  match tt_dimscheck (ndim s) (Some (zlen vlens)) dims excl with
+  | Err => Err
+  | Ok (sd, None) => Err
+  | Ok (sd, Some vidx) => guard_ttv_sizes s vlens sd vidx ;; tail sd
+  end.
+(* sptensor.ttv, ktensor.ttv, ttensor.ttv (and sumtensor.ttv through its parts): nothing after the size loop can fail *)
+Definition guard_ttv_checks (s vlens : vec) (dims excl : option vec) : res unit := guard_ttv_with (fun _ => Ok tt) s vlens dims excl.
+
+(* sptensor.collapse(dims): the generated helper decides (C19-N06 repaired with A-42) *)
+Definition guard_sptensor_collapse (s d : vec) : res unit :=
+  match tt_dimscheck (ndim s) None (Some d) None with Err => Err | Ok _ => Ok tt end.
+
+(* ttensor.mttkrp: the helper, the products factor_matrices[i].T @ U[i] (rows must agree), then core.mttkrp on the
+   projected matrices: order >= 2 and the column agreement (C19-N10 repaired) *)
+Definition guard_ttensor_mttkrp (s : vec) (us : list shp2) (n : Z) : res unit :=
+  let N := ndim s in
+  guard_mttkrp_factors N us n ;;
+  chk_all (fun iu => chk ((fst iu =? n) || (rows (snd iu) =? sz s (fst iu)))) (combine (np_arange 0 N) us) ;;
+  chk (2 <=? N) ;;
+  chk (forallb (fun iu => (fst iu =? n) || (cols (snd iu) =? mttkrp_R us n)) (combine (np_arange 0 N) us)).
+
+(* cp_apr: rank, then the initial guess (a Kruskal tensor of the right size, or "random"), then the algorithm name *)
+Definition guard_cp_apr (s : vec) (rank : Z) (init : initk) (alg_ok : bool) : res unit :=
+  chk (0 <? rank) ;;
+  match init with
+  | InitK ks R => chk (zlen ks =? ndim s) ;; chk (R =? rank) ;;
+                  chk_all (fun n => chk (sz ks n =? sz s n)) (np_arange 0 (ndim s))
+  | InitRandom => Ok tt
+  | InitNvecs | InitBogus | InitList _ => Err
+  end ;; chk alg_ok.
+
+(* tucker_als: maxiters, rank vector (a scalar is repeated; C19-N12 repaired), dimorder, initial factor list (checked for
+   every mode of dimorder except the first, which is recomputed) *)
+Definition tucker_ranks (N : Z) (ranks : vec) : vec := if zlen ranks =? 1 then np_full N (sz ranks 0) else ranks.
+Definition guard_tucker_als (s : vec) (ranks : vec) (init : initk) (dimorder : option vec) (maxiters : Z) : res unit :=
+  let N := ndim s in let rk := tucker_ranks N ranks in
+  chk (0 <=? maxiters) ;; chk (zlen rk =? N) ;; guard_dimorder s dimorder ;;
+  match init with
+  | InitList ms => chk (zlen ms =? N) ;;
+      chk_all (fun n => chk ((rows (shp2_d ms n) =? sz s n) && (cols (shp2_d ms n) =? sz rk n)))
+              (tl (match dimorder with None => np_arange 0 N | Some o => o end))
+  | InitRandom | InitNvecs => Ok tt
+  | InitBogus | InitK _ _ => Err
+  end.
